@@ -464,7 +464,7 @@ func c19Tx1(n int, height int64, index uint32, attrs ...c19Attr) *c19Tx {
 	return &c19Tx{bytes: []byte(fmt.Sprintf("d-%d", n)), height: height, index: index,
 		events: []c19Event{{typ: "a", attrs: attrs}}}
 }
-func c19A(k, v string) c19Attr { return c19Attr{k: k, v: v, idx: true} }
+func c19A(k, v string) c19Attr        { return c19Attr{k: k, v: v, idx: true} }
 func c19Q(conds ...c19Cond) []c19Cond { return conds }
 func c19CS(key string, op int, s string) c19Cond {
 	return c19Cond{key: key, op: op, kind: c19Str, s: s}
@@ -472,7 +472,7 @@ func c19CS(key string, op int, s string) c19Cond {
 func c19CI(key string, op int, n int64) c19Cond {
 	return c19Cond{key: key, op: op, kind: c19Int, n: n}
 }
-func c19CE(key string) c19Cond { return c19Cond{key: key, op: c19Exists, kind: c19None} }
+func c19CE(key string) c19Cond       { return c19Cond{key: key, op: c19Exists, kind: c19None} }
 func c19Batch(txs ...*c19Tx) []c19Op { return []c19Op{{batch: true, txs: txs}} }
 
 type c19Directed struct {
